@@ -1,0 +1,9 @@
+//go:build !verif
+
+package parser
+
+import "github.com/a-h/parse"
+
+func verifEnter() uint64 { return 0 }
+
+func verifIter(*parse.Input, string, uint64) {}
